@@ -82,6 +82,7 @@ class TreeImputer(BaseImputer):
         return sampled_feature_value
 
     def impute(self, feature_subset, x_i, n_samples: int = 1):
+        feature_subset = list(feature_subset)
         predictions = []
         for _ in range(n_samples):
             sampled_values = {}
